@@ -168,11 +168,19 @@ template <typename CharT, typename SizeT>
 template <typename CharT>
 [[nodiscard]] constexpr auto strstr_impl(CharT* haystack, CharT* needle) noexcept -> CharT*
 {
-    while (*haystack != CharT(0)) {
-        if ((*haystack == *needle) && (strcmp(haystack, needle) == 0)) {
+    if (*needle == CharT(0)) {
+        return haystack;
+    }
+    for (; *haystack != CharT(0); ++haystack) {
+        auto* h = haystack;
+        auto* n = needle;
+        while (*n != CharT(0) and *h == *n) {
+            ++h;
+            ++n;
+        }
+        if (*n == CharT(0)) {
             return haystack;
         }
-        haystack++;
     }
     return nullptr;
 }
